@@ -36,7 +36,10 @@ models_str.CONTRACT_MODE = True  # int(text) / UTF-8 decoding of odd input: "a v
 
 
 def ok_outcome(ctx, kind, r, what):
-    if kind == "exc":
+    if kind == "exc" and what.startswith("find_"):
+        # the PE artifact helpers document a result or the 'not found' value, no exception at all ("other PE helpers return None")
+        ctx.prove(False, "%s: the PE helpers return a result or None, they do not raise (got %s: %s)" % (what, type(r).__name__, str(r)[:80]))
+    elif kind == "exc":
         ctx.prove(isinstance(r, ValueError), "%s: only ValueError may escape (got %s: %s)" % (what, type(r).__name__, str(r)[:80]))
     else:
         ctx.prove(True, "%s returns" % what)
